@@ -727,6 +727,7 @@ fn do_event(run: &mut Run, slots: &mut [Option<Slot>], ti: usize, step: i64, ev:
                     run.stats.bump("post_fault_hang");
                 }
             } else if !run.faulted {
+                run.stats.bump(&format!("op_panic:{}", op.code.name()));
                 run.viol("C05", "op_panic", step, op, format!("the operation panicked at {}", d));
             } else {
                 run.stats.bump("post_fault_op_panic");
@@ -1495,6 +1496,9 @@ fn probes(run: &mut Run, kind: Kind, pre: &Alpha, post: &Alpha, op: &Op, val: &V
             }
             if pre.pub_cap == 1 {
                 run.stats.bump("put_at_cap1");
+            }
+            if pre.pub_cap == 0 {
+                run.stats.bump("put_at_cap0");
             }
             let nres = kind.resident_lists();
             if pre.lists.iter().skip(nres).any(|l| l.find(op.k).is_some()) {
